@@ -214,10 +214,34 @@ def cosim_one(args):
             elif sc['event'] == 'return':
                 broker.send_content(chans[0].channel_id, spec.Basic.Return(reply_code=312, reply_text='NO_ROUTE', exchange='x',
                                                                            routing_key='y'), None, b'', reply=False)
-        ts = [ctx.spawn(caller(i), 'c%d' % i) for i in range(sc['nchan'])]
+        def consumer(i):
+            def fn():
+                try:
+                    chans[i].basic.consume(lambda m: None, 'cq%d' % i)
+                    chans[i].start_consuming()
+                    results[i] = ('consumer-returned', None, '', 0)
+                except amqpstorm.AMQPChannelError as why:
+                    results[i] = ('channel-error', why.error_code, str(why), 0)
+                except amqpstorm.AMQPConnectionError as why:
+                    results[i] = ('connection-error', why.error_code, str(why), 0)
+            return fn
+        # optionally the last channel is used by a thread sitting in start_consuming instead of a caller
+        cons_i = sc['nchan'] - 1 if sc.get('consumer') and sc['nchan'] > 1 else None
+        ts = [ctx.spawn(consumer(i) if i == cons_i else caller(i), 'c%d' % i) for i in range(sc['nchan'])]
         inj = ctx.spawn(injector, 'broker-injector')
-        for t in ts + [inj]:
-            ctx.join(t)
+        for k, t in enumerate(ts + [inj]):
+            if k != cons_i:
+                ctx.join(t)
+        if cons_i is not None:
+            ctx.join(ts[cons_i], timeout=0.5)
+            if not ts[cons_i].done:
+                # nothing ended the consumer (the event concerned another channel): stop it ourselves
+                try:
+                    chans[cons_i].stop_consuming()
+                except amqpstorm.AMQPError:
+                    pass
+                ctx.join(ts[cons_i], timeout=5)
+                results[cons_i] = ('done', 0)
         out['results'] = {k: v for k, v in results.items()}
         out['closed_flags'] = [c.is_closed for c in chans] + [conn.is_closed]
 
@@ -236,16 +260,18 @@ def cosim_one(args):
             if i == 0 and r[0] != 'done':
                 if not (r[0] == 'channel-error' and r[1] == code and ('TEXT-%d' % code) in r[2]):
                     out['problems'].append(('chan-close-wrong-error', i, r[:3]))
-            if i != 0 and r[0] != 'done':
+            if i != 0 and r[0] not in ('done', 'consumer-returned'):
                 out['problems'].append(('other-channel-disturbed', i, r[:3]))
         elif ev == 'conn-close':
-            if r[0] != 'done' and not (r[0] == 'connection-error' and r[1] == code):
+            if r[0] == 'consumer-returned':
+                out['problems'].append(('conn-close-consumer-returned-normally', i, r[:3]))
+            elif r[0] != 'done' and not (r[0] == 'connection-error' and r[1] == code):
                 out['problems'].append(('conn-close-wrong-error', i, r[:3]))
         elif ev == 'return':
             if i == 0 and r[0] == 'message-error':
                 if r[1] != 312 or r[-1][0] != 'usable' or r[-1][1] != 'after-return':
                     out['problems'].append(('return-handling', i, r))
-            elif r[0] != 'done':
+            elif r[0] not in ('done', 'consumer-returned'):
                 out['problems'].append(('return-disturbed', i, r[:3]))
     return out
 
@@ -273,7 +299,7 @@ def check(rep):
         ev = rng.choice(['chan-close', 'conn-close', 'conn-close', 'return'])
         jobs.append(({'nchan': rng.randint(1, 3), 'ops': rng.randint(2, 6), 'event': ev,
                       'code': rng.choice([404, 403, 406]) if ev == 'chan-close' else rng.choice([320, 541, 504]),
-                      'delay': rng.choice([0.0, 0.005, 0.01, 0.02, 0.05])}, rng.randrange(1 << 30)))
+                      'delay': rng.choice([0.0, 0.005, 0.01, 0.02, 0.05]), 'consumer': rng.random() < 0.4}, rng.randrange(1 << 30)))
     for (sc, seed), r in zip(jobs, par.pmap(cosim_one, jobs)):
         waiting = any(v[0] != 'done' for v in r.get('results', {}).values())
         rep.case(('cosim', repr(sc), seed), waiting, sample={'cosim': sc, 'results': {k: v[:2] for k, v in r.get('results', {}).items()}})
